@@ -98,11 +98,97 @@ C09Verdict(rec) ==
                      THEN Fail(rec.changed, "encode.locality") ELSE Ok
           IN [j \in 1..Len(idx) |-> [f |-> idx[j], c |-> EncFieldVerdict(d.fields[idx[j]], rec.e, rec.req[idx[j]])]] \o loc
 
+\* ---- C17 ----------------------------------------------------------------
+\* rec (a group of observations of one definition): [id, obs], obs[i] = [p (payload), hash ("" = none), id, netmap]
+\* Key: the code bits of the fields the database marks as part of the primary key (positioned fields)
+KeyBits(d, p) == [k \in {j \in 1..Len(d.fields) : d.fields[j].pk /\ Positioned(d.fields[j])} |-> Code(d.fields[k], p)]
+C17Verdict(rec) ==
+  LET d == DefById(rec.id)
+      n == Len(rec.obs)
+      on == {i \in 1..n : rec.obs[i].netmap}
+  IN IF \E i \in 1..n : ~rec.obs[i].netmap /\ rec.obs[i].hash # "" THEN Fail(0, "hash.set-without-network-map")
+     ELSE IF \E i \in on : rec.obs[i].hash = "" THEN Fail(0, "hash.missing-with-network-map")
+     ELSE IF \E i, j \in on : rec.obs[i].id = rec.obs[j].id /\ KeyBits(d, rec.obs[i].p) = KeyBits(d, rec.obs[j].p)
+                                 /\ rec.obs[i].hash # rec.obs[j].hash
+          THEN Fail(0, "hash.differs-for-equal-key")
+     ELSE IF \E i, j \in on : rec.obs[i].id = rec.obs[j].id /\ KeyBits(d, rec.obs[i].p) # KeyBits(d, rec.obs[j].p)
+                                 /\ rec.obs[i].hash = rec.obs[j].hash
+          THEN Fail(0, "hash.equal-for-different-key")
+     ELSE IF \E i, j \in on : rec.obs[i].id # rec.obs[j].id /\ rec.obs[i].hash = rec.obs[j].hash
+          THEN Fail(0, "hash.equal-for-different-definition")
+     ELSE Ok
+
+\* ---- C18 ----------------------------------------------------------------
+\* rec: [prefs (quantity -> lower-case unit text, "" = no preference), plain, pref (observed fields without / with
+\*       preferences: [id, name, unit, qty, type, pk, r, v, num (harness: the converted number satisfies the exported
+\*       affine map and grid, evaluated in exact rational arithmetic)]), hdrSame]
+\* The conversions the library knows, as exact affine maps value' = a * value + b rounded to a grid:
+\*   [quantity, unit text, label, aNum, aDen, bNum, bDen, gridNum, gridDen]   (grid 0 = no rounding)
+\* pi is given by a rational enclosure in the exported table (the harness checks against both ends).
+Conversions ==
+  << [qty |-> "TEMPERATURE", want |-> "c",   label |-> "C",   aNum |-> 1, aDen |-> 1, bNum |-> -27315, bDen |-> 100, gNum |-> 1, gDen |-> 100],
+     [qty |-> "TEMPERATURE", want |-> "f",   label |-> "F",   aNum |-> 9, aDen |-> 5, bNum |-> -45967, bDen |-> 100, gNum |-> 1, gDen |-> 1],
+     [qty |-> "PRESSURE",    want |-> "bar", label |-> "Bar", aNum |-> 1, aDen |-> 100000, bNum |-> 0, bDen |-> 1, gNum |-> 0, gDen |-> 1],
+     [qty |-> "PRESSURE",    want |-> "psi", label |-> "PSI", aNum |-> 100, aDen |-> 689476, bNum |-> 0, bDen |-> 1, gNum |-> 0, gDen |-> 1],
+     [qty |-> "ANGLE",       want |-> "deg", label |-> "Deg", aNum |-> 180, aDen |-> 0, bNum |-> 0, bDen |-> 1, gNum |-> 1, gDen |-> 1],
+     [qty |-> "SPEED",       want |-> "kts", label |-> "kts", aNum |-> 3600, aDen |-> 1852, bNum |-> 0, bDen |-> 1, gNum |-> 1, gDen |-> 10] >>
+\* (aDen = 0 marks "divide by pi")
+ConvFor(qty, want) == SelectSeq(Conversions, LAMBDA c : c.qty = qty /\ c.want = want)
+WantOf(prefs, qty) == IF qty \in DOMAIN prefs THEN prefs[qty] ELSE ""
+
+C18Field(prefs, a, b) ==
+  LET cv == ConvFor(a.qty, WantOf(prefs, a.qty)) IN
+    IF a.id # b.id \/ a.name # b.name \/ a.qty # b.qty \/ a.type # b.type \/ a.pk # b.pk THEN "attribute-changed"
+    ELSE IF a.r # b.r THEN "raw-value-changed"
+    ELSE IF cv = <<>> THEN (IF a.unit # b.unit THEN "unit-changed-without-conversion"
+                           ELSE IF a.v # b.v THEN "value-changed-without-conversion" ELSE "ok")
+    ELSE IF b.unit # cv[1].label THEN "unit-label"
+    ELSE IF a.v.k = "none" THEN (IF b.v.k = "none" THEN "ok" ELSE "absent-value-became-a-number")
+    ELSE IF b.v.k = "none" THEN "value-lost"
+    ELSE IF ~b.num THEN "converted-value-wrong"
+    ELSE "ok"
+
+C18Verdict(rec) ==
+  IF ~rec.hdrSame THEN Fail(0, "header-changed")
+  ELSE IF Len(rec.plain) # Len(rec.pref) THEN Fail(0, "fields.count")
+  ELSE LET idx == SelectSeq([k \in 1..Len(rec.plain) |-> k], LAMBDA k : C18Field(rec.prefs, rec.plain[k], rec.pref[k]) # "ok")
+       IN [j \in 1..Len(idx) |-> [f |-> idx[j], c |-> C18Field(rec.prefs, rec.plain[idx[j]], rec.pref[idx[j]])]]
+
+\* ---- C15 ----------------------------------------------------------------
+\* message record: [parses (the JSON text is valid JSON for an independent parser), hdrSame (PGN, id, addressing of the
+\*   parsed object equal the message's), f (per field [id, jid, v, jv, r, jr]: canonical texts of the message's value /
+\*   raw value under the rendering rules and of the parsed object's), back ("same" | "differs" | "na": from_json of the
+\*   text re-encodes to the same bytes), finite]
+C15Verdict(rec) ==
+  IF rec.kind = "msg" THEN
+    IF ~rec.parses THEN Fail(0, "json.not-valid")
+    ELSE IF ~rec.hdrSame THEN Fail(0, "json.header")
+    ELSE IF \E k \in 1..Len(rec.f) : rec.f[k].id # rec.f[k].jid THEN Fail(0, "json.field-id")
+    ELSE IF \E k \in 1..Len(rec.f) : rec.f[k].v # rec.f[k].jv THEN
+         Fail(CHOOSE k \in 1..Len(rec.f) : rec.f[k].v # rec.f[k].jv, "json.value")
+    ELSE IF \E k \in 1..Len(rec.f) : rec.f[k].r # rec.f[k].jr THEN
+         Fail(CHOOSE k \in 1..Len(rec.f) : rec.f[k].r # rec.f[k].jr, "json.raw-value")
+    ELSE IF rec.back = "differs" THEN Fail(0, "json.reencode-differs")
+    ELSE IF rec.back = "error" THEN Fail(0, "json.from_json-failed")
+    ELSE Ok
+  ELSE
+    \* dump record: [filter (nums, ids as spelled), out (returned messages in order: [pgn, id, json]), lines (dump file)]
+    LET match(m) == (Len(rec.nums) + Len(rec.ids) = 0)
+                     \/ (\E k \in 1..Len(rec.nums) : rec.nums[k] = m.pgn) \/ (\E k \in 1..Len(rec.ids) : rec.ids[k] = m.id)
+        want == SelectSeq(rec.out, match)
+    IN IF Len(rec.lines) < Len(want) THEN Fail(0, "dump.line-missing")
+       ELSE IF Len(rec.lines) > Len(want) THEN Fail(0, "dump.extra-line")
+       ELSE IF \E k \in 1..Len(want) : rec.lines[k] # want[k].json THEN Fail(0, "dump.line-differs-from-json")
+       ELSE Ok
+
 Verdict(rec) ==
   CASE IOEnv.MODE = "C01" -> C01Verdict(rec)
     [] IOEnv.MODE = "C08" -> C08Verdict(rec)
     [] IOEnv.MODE = "C02" -> C02Verdict(rec)
     [] IOEnv.MODE = "C09" -> C09Verdict(rec)
+    [] IOEnv.MODE = "C17" -> C17Verdict(rec)
+    [] IOEnv.MODE = "C18" -> C18Verdict(rec)
+    [] IOEnv.MODE = "C15" -> C15Verdict(rec)
 
 Verdicts ==
   LET idx == SelectSeq([k \in 1..Len(Recs) |-> k], LAMBDA k : Verdict(Recs[k]) # Ok)
@@ -110,6 +196,7 @@ Verdicts ==
 
 VARIABLE done
 Init == done = FALSE
-Next == done = FALSE /\ done' = TRUE /\ JsonSerialize(IOEnv.OUT_FILE, Verdicts)
+Next == /\ done = FALSE /\ done' = TRUE /\ JsonSerialize(IOEnv.OUT_FILE, Verdicts)
+        /\ (IOEnv.MODE = "C18" => JsonSerialize(IOEnv.OUT_FILE \o ".conversions", Conversions))
 Spec == Init /\ [][Next]_done
 =============================================================================
